@@ -249,6 +249,7 @@ def evaluate(case):
     from textx.scoping.rrel import create_rrel_scope_provider
 
     out = Outcome()
+    check_offset_zero(out, case)
     multi = case["lib"] is not None
     lib_text = lib_refs = lib_spans = lib_shared = None
     lib_classes = []
@@ -323,3 +324,52 @@ def evaluate(case):
     finally:
         if tmp:
             shutil.rmtree(tmp, ignore_errors=True)
+
+
+# -- targets that start at offset 0 of their text ----------------------------------------------------------------
+ZERO_GRAMMAR = r"""
+Model: imports*=Import items+=Item;
+Import: 'import' importURI=STRING;
+Item: Def | Ref;
+Def: 'def' name=ID;
+Ref: 'ref' r=[Def];
+"""
+
+
+def check_offset_zero(out, case):
+    """a definition that is the first thing in its text (offset 0, where it shares its start with the root object) is
+    referenced from the same file and from an importing file: both references must be in the cross-reference list"""
+    from textx import metamodel_from_str
+    from textx.exceptions import TextXError
+    from textx.scoping import providers as P
+
+    lead = "" if case["from_file"] else " \n"  # both with and without leading whitespace occur over the cases
+    two = case["lib"] is not None
+    mm = metamodel_from_str(ZERO_GRAMMAR, textx_tools_support=True)
+    mm.register_scope_providers({"*.*": P.PlainNameImportURI()})
+    tmp = os.path.realpath(tempfile.mkdtemp(prefix="vt-c34z-"))
+    try:
+        lib_text = "def first def second\n"
+        main_text = (lead + ('import "lib0.m"\n' if two else "") + ("" if two else "def first ") + "ref first def third ref third"
+                     + (" ref second" if two else "") + "\n")
+        if two:
+            with open(os.path.join(tmp, "lib0.m"), "w") as f:
+                f.write(lib_text)
+        mp = os.path.join(tmp, "main0.m")
+        with open(mp, "w") as f:
+            f.write(main_text)
+        try:
+            m = mm.model_from_file(mp)
+        except TextXError as e:
+            return out.add("offset_zero/load_failed", f"{main_text!r} lib={lib_text if two else None!r}: {e}")
+        want = []
+        for mt in __import__("re").finditer(r"ref (\w+)", main_text):
+            want.append((mt.start(1), mt.end(1), mt.group(1)))
+        got = sorted((e.ref_pos_start, e.ref_pos_end) for e in m._pos_crossref_list)
+        if got != sorted((a, b) for a, b, _ in want):
+            tgt0 = (not two and lead == "") or two
+            out.add("offset_zero/crossref_list_entries" + ("/target_at_offset_0" if tgt0 else ""),
+                    f"text={main_text!r} lib={lib_text if two else None!r}: entries {got}, expected {sorted((a, b) for a, b, _ in want)}")
+        out.cls("offset_zero:" + ("two_files" if two else ("no_leading_ws" if lead == "" else "leading_ws")))
+    finally:
+        shutil.rmtree(tmp, ignore_errors=True)
